@@ -261,6 +261,31 @@ def p_date_forms(y, m, d):
             v = fn(*f)()
             if v != ref:
                 bad.append([fn.__name__, repr(f)[:40], v, ref])
+    # forms that carry a time of day: whatever instant the library makes of them, the three obliquity functions must
+    # make the SAME instant of the same arguments (true obliquity = mean obliquity + nutation in obliquity, exactly as
+    # the code adds them)
+    h, mi, sec = (7 * y + 3 * m + d) % 24, (11 * d + m) % 60, float((13 * y + 5 * d) % 60) + 0.25
+    timed = [(y, m, d + (h + mi / 60.0) / 24.0), (y, m, d, h, mi, sec), ((y, m, d, h, mi, sec),), ([y, m, d, h, mi, sec],),
+             (Epoch(y, m, d, h, mi, sec),), (y, m, d, h), (y, m, d, h, mi)]
+    if 1 <= y <= 9999:
+        timed += [(datetime.datetime(y, m, d, h, mi, int(sec)),), (datetime.datetime(y, m, d, h, mi, int(sec), 250000),)]
+    for f in forms + timed:
+        try:
+            t, s_ = C.true_obliquity(*f)(), (C.mean_obliquity(*f) + C.nutation_obliquity(*f))()
+        except Exception as ex:  # noqa
+            bad.append(['true_obliquity', repr(f)[:60], repr(ex)[:60], None])
+            continue
+        if t != s_:
+            bad.append(['true_obliquity != mean + nutation', repr(f)[:60], t, s_])
+    for kw in ({'utc': True}, {'leap_seconds': 30.0}):
+        for f in ((y, m, d), (y, m, d, h, mi, sec)):
+            try:
+                t, s_ = C.true_obliquity(*f, **kw)(), (C.mean_obliquity(*f, **kw) + C.nutation_obliquity(*f, **kw))()
+            except Exception as ex:  # noqa
+                bad.append(['true_obliquity', repr((f, kw))[:60], repr(ex)[:60], None])
+                continue
+            if t != s_:
+                bad.append(['true_obliquity != mean + nutation', repr((f, kw))[:60], t, s_])
     return not bad, {'mismatches': bad[:4]}
 
 
